@@ -227,7 +227,9 @@ impl Interval {
                     end: Bitvector::unsigned_max_value(self.end.width())
                         .into_zero_extend(width)
                         .unwrap(),
-                    stride: stride as u64,
+                    // The stride is only set by the adjustment below,
+                    // since the adjustment is a no-op for widths greater than 8 bytes.
+                    stride: 1,
                 }
                 .adjust_to_stride_and_remainder(stride as u64, remainder as u64)
                 .unwrap()
